@@ -257,6 +257,10 @@ where
     let cap_height = fri_params.config.cap_height;
 
     ensure!(trace_cap.height() == cap_height);
+    // The quotient commitment must be present exactly when the STARK has quotient polynomials:
+    // without it, `zeta` would be drawn before the prover is bound to a quotient and the quotient
+    // openings would not be authenticated by any Merkle cap.
+    ensure!(quotient_polys_cap.is_some() == (stark.num_quotient_polys(config) > 0));
     ensure!(
         quotient_polys_cap.is_none()
             || quotient_polys_cap.as_ref().map(|q| q.height()) == Some(cap_height)
